@@ -8,13 +8,14 @@ verus! {
 //@include prelude/core.rs
 //@include prelude/fjall_types.rs
 //@include prelude/paths.rs
-//@broadcast slice_of_view, range_full_is_full
+//@broadcast slice_of_view
 //@world cm.mark_read cm.mark_conflict cm.mark_range self.iter self.range
 
 #[verifier::external_trait_specification]
 pub trait ExAsRef<T: core::marker::PointeeSized>: core::marker::PointeeSized { type ExternalTraitSpecificationFor: AsRef<T>; fn as_ref(&self) -> &T; }
 // ---- ghost world: the transaction's read markers and conflict (write) keys, in the order they were recorded
-pub enum MarkG { Read { ks: u64, key: Seq<u8> }, Range { ks: u64, all: bool }, Conflict { ks: u64, key: Seq<u8> } }
+pub enum BV { Included(Seq<u8>), Excluded(Seq<u8>), Unbounded }
+pub enum MarkG { Read { ks: u64, key: Seq<u8> }, Range { ks: u64, all: bool }, RangeB { ks: u64, lo: BV, hi: BV }, Conflict { ks: u64, key: Seq<u8> } }
 pub struct World { pub marks: Seq<MarkG>, pub inner_reads: nat, pub inner_writes: nat }
 pub struct ConflictManager { pub dummy: u8 }
 pub uninterp spec fn slice_of(b: Seq<u8>) -> Slice;
@@ -33,13 +34,24 @@ impl ConflictManager {
     pub fn mark_conflict(&self, ks: InternalKeyspaceId, key: Slice, Tracked(w): Tracked<&mut World>)
         ensures *final(w) == (World { marks: old(w).marks.push(MarkG::Conflict { ks, key: key@ }), ..*old(w) }) { unimplemented!() }
     #[verifier::external_body]
-    pub fn mark_range<R>(&self, ks: InternalKeyspaceId, range: R, Tracked(w): Tracked<&mut World>)
-        ensures *final(w) == (World { marks: old(w).marks.push(MarkG::Range { ks, all: is_full_range::<R>() }), ..*old(w) }) { unimplemented!() }
+    pub fn mark_range<R: RangeMark>(&self, ks: InternalKeyspaceId, range: R, Tracked(w): Tracked<&mut World>)
+        ensures *final(w) == (World { marks: old(w).marks.push(range.mark(ks)), ..*old(w) }) { unimplemented!() }
     #[verifier::external_body]
     pub fn default() -> (r: ConflictManager) { unimplemented!() }
 }
-pub uninterp spec fn is_full_range<R>() -> bool;
-pub broadcast axiom fn range_full_is_full() ensures #[trigger] is_full_range::<RangeFull>();
+// what ConflictManager::mark_range is handed (contract proved in U-CONFLICT): `RangeFull` = the whole keyspace, a pair of bounds = that range
+pub trait RangeMark { spec fn mark(&self, ks: u64) -> MarkG; }
+impl RangeMark for RangeFull { open spec fn mark(&self, ks: u64) -> MarkG { MarkG::Range { ks, all: true } } }
+pub open spec fn bview(b: Bound<Slice>) -> BV { match b { Bound::Included(k) => BV::Included(k@), Bound::Excluded(k) => BV::Excluded(k@), Bound::Unbounded => BV::Unbounded } }
+impl RangeMark for (Bound<Slice>, Bound<Slice>) { open spec fn mark(&self, ks: u64) -> MarkG { MarkG::RangeB { ks, lo: bview(self.0), hi: bview(self.1) } } }
+/// the byte view of a caller-supplied bound (through the caller's AsRef<[u8]>)
+pub open spec fn bound_is<K: AsRef<[u8]>>(b: Bound<&K>, v: BV) -> bool {
+    match b {
+        Bound::Included(k) => exists|s: &[u8]| #![trigger s@] key_of(k, s) && v == BV::Included(s@),
+        Bound::Excluded(k) => exists|s: &[u8]| #![trigger s@] key_of(k, s) && v == BV::Excluded(s@),
+        Bound::Unbounded => v == BV::Unbounded,
+    }
+}
 pub struct Keyspace { pub id: InternalKeyspaceId }
 impl AsRef<Keyspace> for Keyspace { fn as_ref(&self) -> (r: &Keyspace) ensures *r == *self { self } }
 pub struct IterH { pub dummy: u8 }
@@ -63,6 +75,8 @@ impl BaseTransaction {
     #[verifier::external_body] pub fn insert<K: Into<UserKey>, V: Into<UserValue>>(&mut self, ks: &Keyspace, key: K, value: V) { unimplemented!() }
     #[verifier::external_body] pub fn remove<K: Into<UserKey>>(&mut self, ks: &Keyspace, key: K) { unimplemented!() }
     #[verifier::external_body] pub fn remove_weak<K: Into<UserKey>>(&mut self, ks: &Keyspace, key: K) { unimplemented!() }
+    #[verifier::external_body] pub fn fetch_update<K: Into<UserKey>, F: FnOnce(Option<&UserValue>) -> Option<UserValue>>(&mut self, ks: &Keyspace, key: K, f: F) -> (r: Result<Option<UserValue>, Error>) { unimplemented!() }
+    #[verifier::external_body] pub fn update_fetch<K: Into<UserKey>, F: FnOnce(Option<&UserValue>) -> Option<UserValue>>(&mut self, ks: &Keyspace, key: K, f: F) -> (r: Result<Option<UserValue>, Error>) { unimplemented!() }
 }
 pub struct Oracle { pub dummy: u8 }
 pub struct Arc<T> { pub t: T }
@@ -110,6 +124,30 @@ pub open spec fn recorded_point_read<T: AsRef<Keyspace>, K: AsRef<[u8]>>(o: Worl
 //@extract src/tx/optimistic/write_tx.rs :: WriteTransaction :: remove_weak world props=C07
 //@contract
     ensures final(w).marks.len() == old(w).marks.len() + 1 && (final(w).marks.last() matches MarkG::Conflict { ks, key: k2 } && (exists|k: &Keyspace| #![trigger k.id] resolves(&keyspace, k) && ks == k.id)), // [C07:S2-write-in-conflict-set]
+//@end
+
+//@extract src/tx/optimistic/write_tx.rs :: Readable for WriteTransaction :: range world inherent boundmap props=C07
+//@contract
+    ensures final(w).marks.len() == old(w).marks.len() + 1 && (exists|lo: Bound<&K>, hi: Bound<&K>, vlo: BV, vhi: BV, k: &Keyspace| #![trigger bound_is(lo, vlo), bound_is(hi, vhi), k.id]
+            call_ensures(R::start_bound, (&range,), lo) && call_ensures(R::end_bound, (&range,), hi) && bound_is(lo, vlo) && bound_is(hi, vhi)
+            && resolves(&keyspace, k) && final(w).marks.last() == (MarkG::RangeB { ks: k.id, lo: vlo, hi: vhi })), // [C07:S1-range-scan-recorded-with-the-requested-bounds]
+//@proof before self.inner.range(
+        proof { assert(bound_is(__fjx_b1, bview(start))); assert(bound_is(__fjx_b2, bview(end))); }
+//@end
+/// S1+S2 for read-modify-write helpers: the key is recorded as read AND as written
+pub open spec fn recorded_rmw<T: AsRef<Keyspace>>(o: World, n: World, keyspace: &T) -> bool {
+    n.marks.len() == o.marks.len() + 2 && (forall|i: int| 0 <= i < o.marks.len() ==> (#[trigger] n.marks[i]) == o.marks[i])
+    && exists|k: &Keyspace| #![trigger k.id] resolves(keyspace, k)
+        && (n.marks[o.marks.len() as int] matches MarkG::Read { ks, key } && ks == k.id
+            && n.marks[o.marks.len() as int + 1] == (MarkG::Conflict { ks: k.id, key }))
+}
+//@extract src/tx/optimistic/write_tx.rs :: WriteTransaction :: fetch_update world props=C07
+//@contract
+    ensures r is Ok ==> recorded_rmw(*old(w), *final(w), &keyspace), // [C07:S1-S2-fetch_update-recorded-as-read-and-write]
+//@end
+//@extract src/tx/optimistic/write_tx.rs :: WriteTransaction :: update_fetch world props=C07
+//@contract
+    ensures r is Ok ==> recorded_rmw(*old(w), *final(w), &keyspace), // [C07:S1-S2-update_fetch-recorded-as-read-and-write]
 //@end
 
 //@canary
